@@ -23,9 +23,8 @@ def prepare(rep):
     ctx.coq_ok = ok
     ctx.coq_log = out
     log('coq build', 'ok' if ok else 'FAILED')
-    bad = vlib.audit_sources()
-    pr = vlib.check_props(rep.prop) if ok else {'ok': False, 'obligations': 0, 'discharged': 0, 'axioms': [],
-                                                'theorems': [], 'log': out[-3000:], 'unprinted': []}
+    bad = vlib.audit_sources(rep.prop)
+    pr = vlib.check_props(rep.prop)
     ctx.props = pr
     rep.coverage['obligations'] = max(pr['obligations'], 1)
     rep.coverage['discharged'] = pr['discharged'] if not bad else 0
@@ -37,9 +36,6 @@ def prepare(rep):
     ctx.proof_broken = None
     if bad:
         ctx.proof_broken = 'forbidden construct in the development: ' + '; '.join(bad[:5])
-    elif not ok:
-        m = re.findall(r'File "([^"]+)", line (\d+)', out)
-        ctx.proof_broken = 'Coq build failed at %s' % (m[-1] if m else '?')
     elif not pr['ok']:
         ctx.proof_broken = 'props/%s.v does not check (rc=%s, unprinted=%s, axioms=%s)' % (
             rep.prop, pr.get('rc'), pr.get('unprinted'), pr['axioms'])
